@@ -140,7 +140,7 @@ theorem runOps_last_ok (env : Env) (sidx : Nat) (cur : List POp) (o : POp) (off 
 /-- the limits of either era are far above what the template needs -/
 structure CfgOk (cfg : Cfg) : Prop where
   elem : 75 ≤ cfg.maxElem
-  ops : 4 ≤ cfg.maxOps
+  ops : 11 ≤ cfg.maxOps
   stack : 4 ≤ cfg.maxStack
   script : 200 ≤ cfg.maxScriptSize
 
